@@ -15,6 +15,7 @@ import (
 	"go/ast"
 	"go/parser"
 	"go/token"
+	gotypes "go/types"
 	"os"
 	"path/filepath"
 	"reflect"
@@ -763,6 +764,121 @@ func emitFieldWrites(out *bytes.Buffer, p *pkgFiles) {
 	fmt.Fprintf(out, "Definition sp_field_writes : list (string * string) := %s.\n", coqList(ws))
 }
 
+// elementWriterShape reads the etree write settings off the body of
+//
+//	func xmlUnmarshalElement(el *etree.Element, obj interface{}) error
+//
+// (decode_response.go; the function itself is not translated: Schema.v models it as "serialise, tokenize, decode").
+// Accepted, statement for statement and nothing else:
+//
+//	doc := etree.NewDocument()
+//	doc.WriteSettings.<CanonicalText|CanonicalAttrVal|CanonicalEndTags> = <true|false>      (any number, each name once)
+//	doc.SetRoot(el)
+//	data, err := doc.WriteToBytes()
+//	if err != nil { return err }
+//	err = xml.Unmarshal(data, obj); if err != nil { return err }; return nil      or      return xml.Unmarshal(data, obj)
+//
+// and answers the (setting, value) pairs in source order.  Any other body is not understood: no definition is emitted and the
+// proofs citing it (P_C08.v / P_C20.v: the view Schema.v gives xmlUnmarshalElement is the one of these settings) stop compiling.
+func elementWriterShape(fn *ast.FuncDecl) ([]string, string) {
+	ps := fn.Type.Params.List
+	if fn.Recv != nil || len(ps) != 2 || len(ps[0].Names) != 1 || len(ps[1].Names) != 1 || gotypes.ExprString(ps[0].Type) != "*etree.Element" ||
+		(gotypes.ExprString(ps[1].Type) != "interface{}" && gotypes.ExprString(ps[1].Type) != "any") ||
+		fn.Type.Results == nil || len(fn.Type.Results.List) != 1 || gotypes.ExprString(fn.Type.Results.List[0].Type) != "error" {
+		return nil, "signature is not func(el *etree.Element, obj interface{}) error"
+	}
+	el, obj := ps[0].Names[0].Name, ps[1].Names[0].Name
+	body := fn.Body.List
+	if len(body) < 5 {
+		return nil, "body is not a serialise-then-decode sequence"
+	}
+	as, ok := body[0].(*ast.AssignStmt)
+	if !ok || as.Tok != token.DEFINE || len(as.Lhs) != 1 || len(as.Rhs) != 1 || exprString(as.Rhs[0]) != "etree.NewDocument()" {
+		return nil, "first statement is not doc := etree.NewDocument()"
+	}
+	doc := exprString(as.Lhs[0])
+	if doc == el || doc == obj || doc == "_" {
+		return nil, "first statement is not doc := etree.NewDocument()"
+	}
+	i := 1
+	var sets []string
+	seen := map[string]bool{}
+	for ; i < len(body); i++ {
+		set, ok := body[i].(*ast.AssignStmt)
+		if !ok || set.Tok != token.ASSIGN || len(set.Lhs) != 1 || len(set.Rhs) != 1 {
+			break
+		}
+		lhs := exprString(set.Lhs[0])
+		if !strings.HasPrefix(lhs, doc+".WriteSettings.") {
+			return nil, "assignment to " + lhs + " before the document is written"
+		}
+		name := strings.TrimPrefix(lhs, doc+".WriteSettings.")
+		val := exprString(set.Rhs[0])
+		if (name != "CanonicalText" && name != "CanonicalAttrVal" && name != "CanonicalEndTags") || (val != "true" && val != "false") || seen[name] {
+			return nil, "write setting " + name + " = " + val + " is not modelled"
+		}
+		seen[name] = true
+		sets = append(sets, fmt.Sprintf("(%s, %s)", coqStr(name), val))
+	}
+	rest := body[i:]
+	isErrReturn := func(s ast.Stmt, errv string) bool {
+		f, ok := s.(*ast.IfStmt)
+		if !ok || f.Init != nil || f.Else != nil || exprString(f.Cond) != errv+"!=nil" || len(f.Body.List) != 1 {
+			return false
+		}
+		r, ok := f.Body.List[0].(*ast.ReturnStmt)
+		return ok && len(r.Results) == 1 && exprString(r.Results[0]) == errv
+	}
+	if len(rest) < 4 {
+		return nil, "body is not a serialise-then-decode sequence"
+	}
+	if es, ok := rest[0].(*ast.ExprStmt); !ok || exprString(es.X) != doc+".SetRoot("+el+")" {
+		return nil, "the document's root is not set to the element"
+	}
+	wr, ok := rest[1].(*ast.AssignStmt)
+	if !ok || wr.Tok != token.DEFINE || len(wr.Lhs) != 2 || len(wr.Rhs) != 1 || exprString(wr.Rhs[0]) != doc+".WriteToBytes()" {
+		return nil, "no data, err := doc.WriteToBytes()"
+	}
+	data, errv := exprString(wr.Lhs[0]), exprString(wr.Lhs[1])
+	if data == "_" || errv == "_" || data == errv || data == doc || errv == doc || data == obj || errv == obj || data == el || errv == el {
+		return nil, "no data, err := doc.WriteToBytes()"
+	}
+	if !isErrReturn(rest[2], errv) {
+		return nil, "the error of WriteToBytes is not returned"
+	}
+	um := "xml.Unmarshal(" + data + "," + obj + ")"
+	tail := rest[3:]
+	if len(tail) == 1 {
+		if r, ok := tail[0].(*ast.ReturnStmt); ok && len(r.Results) == 1 && exprString(r.Results[0]) == um {
+			return sets, "etree.NewDocument, write settings, SetRoot, WriteToBytes, xml.Unmarshal"
+		}
+	}
+	if len(tail) == 3 {
+		a, ok := tail[0].(*ast.AssignStmt)
+		r, ok2 := tail[2].(*ast.ReturnStmt)
+		if ok && ok2 && a.Tok == token.ASSIGN && len(a.Lhs) == 1 && len(a.Rhs) == 1 && exprString(a.Lhs[0]) == errv && exprString(a.Rhs[0]) == um &&
+			isErrReturn(tail[1], errv) && len(r.Results) == 1 && exprString(r.Results[0]) == "nil" {
+			return sets, "etree.NewDocument, write settings, SetRoot, WriteToBytes, xml.Unmarshal"
+		}
+	}
+	return nil, "the written bytes are not handed to xml.Unmarshal(data, obj) as the function's result"
+}
+
+func emitElementWriter(out *bytes.Buffer, p *pkgFiles) {
+	fn := findFunc(p, "", "xmlUnmarshalElement")
+	if fn == nil || fn.Body == nil {
+		out.WriteString("(* UNSUPPORTED xmlUnmarshalElement: not found *)\n")
+		return
+	}
+	sets, why := elementWriterShape(fn)
+	if sets == nil && !strings.HasPrefix(why, "etree.NewDocument") {
+		fmt.Fprintf(out, "(* UNSUPPORTED xmlUnmarshalElement: %s *)\n", why)
+		return
+	}
+	fmt.Fprintf(out, "(* xmlUnmarshalElement: %s *)\n", why)
+	fmt.Fprintf(out, "Definition xmlUnmarshalElement_write_settings : list (string * bool) := %s.\n", coqList(sets))
+}
+
 // advertised encryption methods in Metadata / MetadataWithSLO (composite literals {Algorithm: types.X})
 func emitAdvertised(out *bytes.Buffer, p *pkgFiles, tenv constEnv) {
 	for _, fnName := range []string{"Metadata", "MetadataWithSLO"} {
@@ -870,6 +986,9 @@ func main() {
 	out.WriteString("\n(* ---- SigningContext lock/access shape, receiver-field writes ---- *)\n")
 	emitSigningShape(&out, root)
 	emitFieldWrites(&out, root)
+
+	out.WriteString("\n(* ---- etree write settings of xmlUnmarshalElement ---- *)\n")
+	emitElementWriter(&out, root)
 
 	out.WriteString("\n(* ---- advertised and supported encryption methods ---- *)\n")
 	emitAdvertised(&out, root, tenv)
